@@ -268,6 +268,7 @@ def classify(short_name, checks, kani_status, stage_dir=None, should_panic=False
     undetermined = 0
     unknown_asm = False
     reach = None
+    other_covers_unsat = []
     for c in checks:
         st = _norm_status(c['status'])
         desc = c['description']
@@ -277,6 +278,8 @@ def classify(short_name, checks, kani_status, stage_dir=None, should_panic=False
                 unknown_asm = True
             if desc == short_name + REACHABLE_SUFFIX:
                 reach = (st == 'SATISFIED') if reach is None else (reach and st == 'SATISFIED')
+            elif not desc.startswith(UNKNOWN_ASM_MARK) and st != 'SATISFIED':
+                other_covers_unsat.append(desc)
             continue
         if st == 'FAILURE':
             failed.append({'description': desc, 'location': _rel_loc(c['location'], stage_dir)})
@@ -284,7 +287,8 @@ def classify(short_name, checks, kani_status, stage_dir=None, should_panic=False
             undetermined += 1
 
     cover_ok = bool(reach)
-    res = {'failed_checks': failed, 'cover_satisfied': cover_ok, 'unknown_asm': unknown_asm}
+    res = {'failed_checks': failed, 'cover_satisfied': cover_ok, 'unknown_asm': unknown_asm,
+           'other_covers_unsatisfied': other_covers_unsat}
     ks = _norm_status(kani_status)
     ok = ks in ('SUCCESS', 'SUCCESSFUL') or ks.startswith('SUCCESSFUL')
 
@@ -573,6 +577,9 @@ def run_harnesses(stage_dir, names, jobs=16, timeout_s=600, target_dir=DEFAULT_T
         out = _mk(c['status'], c['reason'], c['failed_checks'], c['cover_satisfied'], rec.get('seconds'),
                   hlog, pretty)
         out['source'] = rec['source']
+        out['other_covers_unsatisfied'] = c['other_covers_unsatisfied']
+        if c.get('expected_panics'):
+            out['expected_panics'] = c['expected_panics']
         out['n_checks'] = len(rec['checks'])
         results[n] = out
     results['_run'] = run_info
